@@ -315,6 +315,8 @@ func (v *Verifier) structural(cfg PropConfig, sc StructuralCheck) []StructResult
 		return v.resultCoupling(cfg, sc)
 	case "step_run_pairing":
 		return v.stepRunPairing(cfg, sc)
+	case "codec_coverage":
+		return v.codecCoverage(cfg, sc)
 	case "callers_subset":
 		var a struct {
 			Callee  string   `json:"callee"`
